@@ -346,6 +346,11 @@ class HistogramND(HistogramBase):
 
     def fill(self, value: ArrayLike, weight: float = 1, **kwargs):
         value_array = np.asarray(value)
+        if value_array.shape != (self.ndim,):
+            # Refuse before any adaptive binning gets extended
+            raise ValueError(
+                f"Wrong shape: {value_array.shape}, expected: ({self.ndim},)"
+            )
         if value_array.dtype.kind == "f" and np.isnan(value_array).any():
             return None  # NaN values are skipped (as in fill_n and in construction)
         self._coerce_dtype(type(weight))
